@@ -241,6 +241,44 @@ Proof.
     repeat split; try reflexivity. rewrite app_nil_r. exact Hc.
 Qed.
 
+(* both ends of keys(min, max): the root is pinned at every comparison of both searches, and every exit
+   (a raising comparison in either search, nothing found at the low end, the normal end) releases everything *)
+Lemma range2_piece p1 p2 lf c P :
+  piece (ptr (range2_tr p1 p2 lf c)) P P (match p1 with (id, _) :: _ => id :: P | [] => P end).
+Proof.
+  destruct p1 as [|[id ps] rest]; [apply piece_nil|].
+  assert (Hwrap : forall e, piece e (id :: P) (id :: P) (id :: P) ->
+                  piece (PUse id :: e ++ [PUnuse id]) P P (id :: P)).
+  { intros e (Ha & Hb & Hc). unfold piece.
+    change (PUse id :: e ++ [PUnuse id]) with ([PUse id] ++ e ++ [PUnuse id]).
+    rewrite !pins_after_app, !unuse_ok_app, !observe_app.
+    cbn [pins_after fold_left pstep unuse_ok observe]. fold (pins_after e (id :: P)).
+    rewrite Ha, Hb. cbn [existsb]. rewrite remove1_head, Nat.eqb_refl.
+    repeat split; try reflexivity. rewrite app_nil_r. exact Hc. }
+  cbn [range2_tr].
+  pose proof (range_loop_piece rest id false ps c (id :: P) (fun _ => or_introl eq_refl)) as H1.
+  destruct (range_loop id false ps rest c) as [[e1 c1] f1]. cbn [ptr fst] in H1.
+  destruct f1; [cbn [ptr fst]; apply Hwrap, H1|].
+  destruct lf; [|cbn [ptr fst]; apply Hwrap, H1].
+  destruct p2 as [|[id' ps2] rest2]; [cbn [ptr fst]; apply Hwrap, H1|].
+  pose proof (range_loop_piece rest2 id false ps2 c1 (id :: P) (fun _ => or_introl eq_refl)) as H2.
+  destruct (range_loop id false ps2 rest2 c1) as [[e2 c2] f2]. cbn [ptr fst] in *.
+  replace (e1 ++ e2 ++ [PUnuse id]) with ((e1 ++ e2) ++ [PUnuse id]) by (rewrite app_assoc; reflexivity).
+  apply Hwrap. eapply piece_app; [exact H1 | exact H2].
+Qed.
+
+Theorem range2_balanced p1 p2 lf c P :
+  pins_after (ptr (range2_tr p1 p2 lf c)) P = P /\ unuse_ok (ptr (range2_tr p1 p2 lf c)) P = true.
+Proof. destruct (range2_piece p1 p2 lf c P) as (H1 & H2 & _). split; assumption. Qed.
+
+Theorem range2_protect id ps rest p2 lf c P :
+  Forall (fun o => In (onode o) (opins o) /\ In id (opins o))
+         (observe (ptr (range2_tr ((id, ps) :: rest) p2 lf c)) P).
+Proof.
+  destruct (range2_piece ((id, ps) :: rest) p2 lf c P) as (_ & _ & H). eapply Forall_impl; [|exact H].
+  intros o [H1 H2]. split; [exact H1|]. apply H2. left. reflexivity.
+Qed.
+
 (* ---------- the statements ---------- *)
 Theorem pins_balanced d p c P :
   pins_after (ptr (pin_trace d p c)) P = P /\ unuse_ok (ptr (pin_trace d p c)) P = true.
